@@ -651,7 +651,10 @@ fn base_strategy() -> impl Strategy<Value = (AigOwned, Vec<u32>)> {
                 let j = pick(k as u64 + 1) as usize;
                 ands.swap(k, j);
             }
-            let max_var = vars.iter().copied().max().unwrap_or(0) + pick(3);
+            // usually the largest variable (plus slack); sometimes understated - the field is public,
+            // a graph assembled by hand may leave it at 0 - renumbering does not depend on it
+            let largest = vars.iter().copied().max().unwrap_or(0);
+            let max_var = if pick(8) == 0 { pick(largest + 1) } else { largest + pick(3) };
             let aig = AigOwned {
                 max_var_index: max_var,
                 inputs,
@@ -835,7 +838,7 @@ fn case_strategy() -> impl Strategy<Value = Case> {
 #[derive(Serialize, Deserialize, Clone, Debug, PartialEq, Eq, Hash)]
 pub struct DeepCase {
     pub gates: usize,
-    /// 0 chain, 1 tree over earlier gates, 2 chain of x&x / x&!x
+    /// 0 chain, 1 tree over earlier gates, 2 chain of x&x / x&!x, 3 shift register (latches and gates)
     pub shape: u8,
     pub trim: bool,
     pub strash: bool,
@@ -862,6 +865,48 @@ fn build_deep(d: &DeepCase) -> Case {
         x ^= x << 17;
         x % m.max(1)
     };
+    if d.shape % 4 == 3 {
+        // wide rather than deep: n/2 latches and n/2 gates, gate k = latch k & an input, latch k+1
+        // takes gate k (two large sections at once)
+        let h = (n as u64 / 2).max(1);
+        let latch = |k: u64| 2 * (ni + 1 + k);
+        let gate = |k: u64| 2 * (ni + 1 + h + k);
+        let mut latches = Vec::with_capacity(h as usize);
+        let mut gates = Vec::with_capacity(h as usize);
+        for k in 0..h {
+            let next = if k == 0 { 2 } else { gate(k - 1) ^ rnd(2) };
+            latches.push((Some(latch(k)), next, if k % 3 == 0 { None } else { Some(k % 2 == 0) }));
+            gates.push((Some(gate(k)), latch(k) ^ rnd(2), (2 * (1 + rnd(ni))) ^ rnd(2)));
+        }
+        let mut defect = String::new();
+        if d.cyclic {
+            // gate 0 depends on the last gate and the last gate (through nothing sequential) on gate 0
+            let last = gates.len() - 1;
+            gates[0].2 = gate(last as u64);
+            gates[last].2 = gate(0);
+            if last == 0 {
+                gates[0].2 = gate(0) ^ 1;
+            }
+            defect = "cycle".into();
+        }
+        return Case {
+            aig: AigOwned {
+                max_var_index: ni + 2 * h,
+                inputs: vec![2, 4, 6],
+                input_count: ni,
+                latches,
+                outputs: vec![gate(h - 1) ^ 1],
+                ands: gates,
+                ..AigOwned::default()
+            },
+            trim: d.trim,
+            strash: d.strash,
+            fold: d.fold,
+            lit: d.lit,
+            defect,
+            patterns_seed: d.seed,
+        };
+    }
     for k in 0..n as u64 {
         let out = 2 * (ni + 1 + k);
         let prev = if k == 0 { 2 } else { 2 * (ni + k) };
@@ -905,7 +950,7 @@ fn build_deep(d: &DeepCase) -> Case {
 
 pub fn check_deep(d: &DeepCase, obs: &mut Obs) -> CheckResult {
     let c = build_deep(d);
-    obs.class(format!("deep-shape/{}", d.shape % 3));
+    obs.class(format!("deep-shape/{}", if d.shape % 4 == 3 { 3 } else { d.shape % 3 }));
     check(&c, obs)
 }
 
@@ -918,7 +963,7 @@ fn deep_strategy(max_gates: usize) -> impl Strategy<Value = DeepCase> {
             1 => Just((124usize, 3u8)),
             1 => Just((32764usize, 0u8)),
         ],
-        0u8..3,
+        prop_oneof![3 => 0u8..3, 1 => Just(3u8)],
         any::<[bool; 3]>(),
         any::<u64>(),
         any::<bool>(),
